@@ -4,11 +4,11 @@
 package main
 
 import (
-	"runtime"
 	"bufio"
 	"encoding/json"
 	"fmt"
 	"os"
+	"runtime"
 	"runtime/debug"
 	"strings"
 	"time"
